@@ -178,6 +178,10 @@ def gen_cache_spec(rng, nmax=9, dependent_sources=True):
                 i += 1
                 nodes.append({"id": i, "kind": "dsource", "args": [], "deps": sorted(set(extra + [i - 1])), "fed_by": i - 1})
         i += 1
+    # some calls take their LAST arguments by keyword (names k0, k1 ...: `args` stays the full ordered argument list)
+    for nd in nodes:
+        if nd["kind"] in ("stored", "call", "producer") and nd["args"] and rng.random() < 0.3:
+            nd["nkw"] = rng.randint(1, len(nd["args"]))
     spec = {"nodes": nodes}
     # the class of every store, and WHEN the stored calls are registered: at creation (registry order = plan order) or
     # after the whole plan has been built, in a shuffled order (then a dependent source precedes the stored values it
@@ -225,7 +229,8 @@ def build_cache(spec, env):
     b.kinds = kinds
 
     def mkfn(i, writes=None):
-        def fn(*args):
+        def fn(*pos, **kw):
+            args = tuple(pos) + tuple(kw.values())      # keyword arguments in the order received
             env.event("call", i)
             if i in b.failing:
                 raise Cut("call %d fails" % i)
@@ -271,7 +276,9 @@ def build_cache(spec, env):
         elif k in ("lit", "token"):
             b.N[i] = b.plan.lit(("a", i))
         else:
-            b.N[i] = b.plan.call(mkfn(i, nd.get("writes")), *[b.N[a] for a in nd["args"]])
+            npos = len(nd["args"]) - nd.get("nkw", 0)
+            b.N[i] = b.plan.call(mkfn(i, nd.get("writes")), *[b.N[a] for a in nd["args"][:npos]],
+                                 **{"k%d" % k: b.N[a] for k, a in enumerate(nd["args"][npos:])})
             if k == "stored":
                 c = cls.get(i, MemStore)
                 b.stores[i] = (feeding(c, feeds[i]) if i in feeds else c)(i, env)
@@ -357,8 +364,9 @@ def exec_request(b, snap, c0, stale, out, events, value, ok):
     nodes, edges = [], []
     for nd in spec["nodes"]:
         nodes.append("%d:%s" % (nd["id"], "l" if nd["kind"] in ("lit", "token") else "c"))
+        npos = len(nd["args"]) - nd.get("nkw", 0)
         for k, a in enumerate(nd["args"]):
-            edges.append("%d>%d:p%d" % (a, nd["id"], k))
+            edges.append("%d>%d:p%d" % (a, nd["id"], k) if k < npos else "%d>%d:k%d=k%d" % (a, nd["id"], k - npos, k - npos))
         for d in nd["deps"]:
             edges.append("%d>%d:d" % (d, nd["id"]))
     if out is None:
